@@ -1,7 +1,7 @@
 ---------------------------- MODULE Trace_DictFile ----------------------------
 (* Trace validation for C07.  One session = one directory, one or more server      *)
 (* incarnations of the real harper-ls Backend:                                      *)
-(*   Reset | Added{scope, w, doc, completed} | Crashed{scope, w, doc, at, finished}  *)
+(*   Reset | Preexisting{scope, doc, words[]} | Added{scope, w, doc, completed} | Crashed{scope, w, doc, at, finished}  *)
 (*   | Restart | Reloaded{scope, doc, present, words[]} | Published{doc, flagged[],  *)
 (*   other}                                                                           *)
 (* Spec state (as in DictFile.tla, at the granularity of whole commands): the words   *)
@@ -26,6 +26,11 @@ Unch == UNCHANGED <<user, file, maybeU, maybeF, crashedAt, baseline>>
 Step(e) ==
   CASE e.ev = "Reset" -> user' = {} /\ file' = [d \in Docs |-> {}] /\ maybeU' = {} /\ maybeF' = [d \in Docs |-> {}] /\ crashedAt' = 0
                          /\ baseline' = [d \in Docs |-> -1]
+    \* a dictionary file that was there before the server ran: its words are stored words
+    [] e.ev = "Preexisting" ->
+         /\ IF e.scope = "user" THEN user' = user \cup Elems(e.words) /\ UNCHANGED file
+            ELSE file' = [file EXCEPT ![e.doc] = @ \cup Elems(e.words)] /\ UNCHANGED user
+         /\ UNCHANGED <<maybeU, maybeF, crashedAt, baseline>>
     [] e.ev = "Added" ->
          /\ IF e.scope = "user" THEN user' = user \cup {e.w} /\ UNCHANGED file
             ELSE file' = [file EXCEPT ![e.doc] = @ \cup {e.w}] /\ UNCHANGED user
